@@ -16,13 +16,24 @@ import (
 // deployment/package conditions and revision, phase objects, slices. UIDs,
 // resourceVersions, generations, timestamps, messages and the status of
 // managed objects are excluded.
-func (w *World) Projection() map[string]string {
+func (w *World) Projection() map[string]string { return w.projection(false) }
+
+func (w *World) projection(omitPhases bool) map[string]string {
 	out := map[string]string{}
 	for _, cl := range w.Clusters() {
 		for _, k := range sortedKeys(cl.Objs) {
 			o := cl.Objs[k]
 			if k.Kind == "Namespace" || k.Name == "foreign-owner" {
 				continue
+			}
+			if omitPhases && isSliceKind(k.Kind) {
+				continue
+			}
+			if omitPhases && isObjectSetKind(k.Kind) && k.Group == PKOGroup {
+				o = store.Copy(o)
+				if sp, ok := o["spec"].(map[string]any); ok {
+					delete(sp, "phases")
+				}
 			}
 			out[cl.Name+" "+k.String()] = projectObject(k, o)
 		}
